@@ -39,6 +39,36 @@ CLAIMED = {
         ref='DESIGN.md 7 (C07)'),
 }
 
+CLAIMED['C14'] = dict(
+    text='Lean 4 refinement proof: the mapping accessors of yatiml.Node (has/get/set/remove/rename) '
+         'are modelled on the pair list of a mapping node and proved, for operation sequences of '
+         'every length on mappings with distinct string keys, to return what an association-list '
+         'ordered dictionary returns and to keep the mapping equal to it; distinctness is preserved '
+         '(rename onto another existing key is the stated exit); exactly one classifier holds; '
+         'set_value/get_value round trip; get_value is the loader\'s scalar construction; '
+         'remove_attributes_with_default_values is total and removes exactly the matching defaults. '
+         'Tie: random operation sequences, all scalar spellings x core tags, all (default, value) '
+         'pairs run on the real yatiml.Node and on the model (results and final node compared), and '
+         'against an ordered-dict / loader-constructor oracle.',
+    note=NOTE_COMMON + 'construct_yaml_float is an external function of the model (values supplied '
+         'per case from the real PyYAML); int() on non-ASCII digits is not modelled.',
+    technique='Lean 4 refinement proof (accessors vs ordered dictionary, induction over operation '
+              'sequences) + differential correspondence',
+    ref='DESIGN.md 7 (C14)')
+CLAIMED['C15'] = dict(
+    text='Lean 4 theorems on the model of the four structural transforms and the key renamers: '
+         'missing attribute or wrong kind leaves the node unchanged and raises nothing, duplicate '
+         'keys raise SeasoningError exactly in strict mode, dash/underscore renaming is inverse on '
+         'keys free of the target character. The inverse-pair and documented-shape laws are checked '
+         'by the correspondence harness against an independent plain-data oracle on generated nodes '
+         '(their Lean proofs are listed as open in DESIGN.md). Tie: every transform and transform '
+         'pair on generated nodes (well-formed, wrong kind, mixed, duplicate keys, missing value '
+         'attribute) on the real yatiml.Node and on the model, nodes compared.',
+    note=NOTE_COMMON + 'the inverse laws are validated by exploration, not yet by a theorem.',
+    technique='Lean 4 proofs (applicability, duplicates, renaming inverse) + differential '
+              'correspondence with a plain-data oracle for shapes and inverse pairs',
+    ref='DESIGN.md 7 (C15)')
+
 NOT_YET = 'check not built yet in this round (planned proof: DESIGN.md section 7)'
 
 
